@@ -21,6 +21,7 @@ type OpFault struct {
 	When string `json:"when"` // "before" (image before the call), "tear" (image after the first Arg bytes of a write)
 	Arg  int    `json:"arg,omitempty"`
 	Sub  int    `json:"sub,omitempty"` // second crash: ordinal+1 of the recovery's disk event at which a sub-image is taken (0 = none)
+	Post int    `json:"post,omitempty"` // what is done with the repaired directory: 1 write+restart, 2 also delete+compact, 3 also delete+snapshot (0 = draw)
 }
 
 type imageRec struct {
@@ -400,6 +401,9 @@ func checkImage(w *World, img *imageRec, ops []Op, states []*Readout, vols []map
 		w.vioFault = &f
 		w.Fail(clause, kind, fmt.Sprintf("crash at op %d (%s) event %d [%s, %s], durable floor = op %d: %s", img.op, ops[img.op].String(), img.fault.Ev, img.evDesc, img.fault.When, img.floor, detail), img.op)
 	}
+	if img.fault.Post == 0 {
+		img.fault.Post = 1 + w.R.Intn(3) // recorded in the fault so that a replay takes the same branch
+	}
 	opts := w.Opts
 	opts.DataDir = img.dir
 	// second crash: take a sub-image at one of the recovery's own disk events
@@ -674,6 +678,42 @@ func checkImage(w *World, img *imageRec, ops []Op, states []*Readout, vols []map
 		vec[0] = 1
 		if err := e2.VAdd(n, "c02new", vec, map[string]any{"c02": "new"}); err == nil {
 			added[n] = true
+		}
+	}
+	// ... and keep using the repaired directory the way C01 histories do: remove something that was recovered,
+	// then compact or snapshot. Whatever the crash left behind (rewrite.tmp, *.kdb.tmp, a half-written log tail)
+	// must not leak into the files these operations produce.
+	switch mode := img.fault.Post - 1; mode {
+	case 1, 2:
+		for _, k := range sortedKeys(got2.KV) {
+			if k != "c02probe" {
+				e2.KVDelete(k)
+				break
+			}
+		}
+		for _, n := range sortedKeys(got2.Indexes) {
+			ids := sortedKeys(got2.Indexes[n].Vecs)
+			if len(ids) > 1 {
+				e2.VDelete(n, ids[0])
+				break
+			}
+		}
+		settle()
+		if mode == 1 {
+			if os.Getenv("KDSIM_DUMP") != "" {
+				fmt.Println("before rewrite:", describeDir(img.dir))
+			}
+			err := e2.RewriteAOF()
+			if os.Getenv("KDSIM_DUMP") != "" {
+				fmt.Println("after rewrite:", err, describeDir(img.dir))
+			}
+			if err == nil {
+				w.Probe("compaction_on_repaired_dir")
+			}
+		} else {
+			if err := e2.SaveSnapshot(); err == nil {
+				w.Probe("snapshot_on_repaired_dir")
+			}
 		}
 	}
 	settle()
